@@ -90,7 +90,8 @@ PROPS["C15"] = dict(
 PROPS["C17"] = dict(
     harness="c17_gridindex", flavour="asan",
     quick=dict(workers=8, cases=20000, min_nontrivial=300),
-    thorough=dict(workers=16, cases=2000000, min_nontrivial=1500, budget_s=3000),
+    thorough=dict(workers=16, cases=2000000, min_nontrivial=1500, budget_s=3000,
+                  fuzz=dict(target="f17_gridindex", runs=200000, jobs=8, max_len=512)),
     rule="PolarGrid(radii, angles[, split]) with nr 2..65 (uniform / geometric / random-ratio / midpoint-nested radii, "
          "R0/Rmax from 1e-8 to 0.5), ntheta 2..64 even, powers of two and not (uniform, mirrored non-uniform, "
          "midpoint-nested angles with antipodal partners by construction), automatic split or explicit split below R0, "
